@@ -80,6 +80,30 @@ CHECKS = {
              'section declared shorter than its content.',
         note='Trusted: mc.ref.message (layout from FM-94). Deviation bound 1 (quick) / 2 (thorough) on simultaneous '
              'non-default declared lengths / surplus sections; data lengths beyond 32 bits repeat residues mod 16.'),
+    'C10': dict(
+        level='model_checking', design='DESIGN.md §4 C10',
+        technique='exhaustive enumeration: every generated message (template x 1..3(4) subsets with pairwise different '
+                  'content x compression x 4 value patterns) x ALL index sequences of length <= 3 over 0..n-1, full range, '
+                  'reverse, list/tuple forms and out-of-range collections; whole multi-subset sample corpus; command line',
+        text='For every (message, index collection) of the bounded product the real subset() -> Encoder -> Decoder chain '
+             'must give exactly the selected source subsets (content known by construction from the reference encoder), '
+             'the byte-identical message the reference builds from those subsets (uncompressed) or C02-conformant columns '
+             '(compressed), unchanged identification/descriptors/compression flag, an unmodified source object (deep '
+             'snapshot), and must refuse every collection containing an index outside 0..n-1.',
+        note='Trusted: reference model R. Beyond the bound: more than 4 subsets in generated messages (the corpus has up to '
+             'hundreds, visited with 9 collections each), collections longer than 3 (4 for one environment).'),
+    'C17': dict(
+        level='model_checking', design='DESIGN.md §4 C17',
+        technique='exhaustive enumeration of the full product parameter name x section index x whitespace variant x '
+                  'edition x section 2 x message x decode mode; every single-byte corruption of the data-section body and '
+                  'section 5 of every pool message for the metadata-only decode and stream scan; sample corpus',
+        text='Every %name / %k.name expression of the product is evaluated by the real querent on fully and '
+             'metadata-only decoded messages and compared with the field value the FM-94 layout gives (first match = '
+             'lowest section index); malformed expressions must raise MetadataExprParsingError; the metadata-only decode '
+             'must equal sections 0-3 of the full decode for every corruption of the data body and cut stream messages by '
+             'their declared total length.',
+        note='Trusted: mc.ref.message. Names are read from definitions/*.json (names only). Two-dot and empty '
+             'expressions are outside the statement.'),
     'C05': dict(
         level='model_checking', design='DESIGN.md §4 C05',
         technique='exhaustive enumeration of ALL columns over the full raw domain (n<=3,w<=3; thorough n<=4,w<=4) per '
